@@ -73,6 +73,19 @@ def oracle_repro(args):
     problems = []
     if len(a) != len(b) or not all(_same(x, y) for x, y in zip(a, b)):
         problems.append("two runs with identical inputs differ")
+    if spec.get("_model") is not None:
+        # ... and the model object itself answers as a brand-new one does (couplings carry the eigenvector signs: bit for bit)
+        import mudslide
+        fresh = mudslide.models.scattering_models[spec["model"]]()
+        for xq in (float(spec["x0"]), 0.5 * float(spec["x0"]), 0.1, -0.5 * float(spec["x0"]), -float(spec["x0"]), abs(float(spec["box"]))):
+            u_ = spec["_model"].update(np.array([xq]))
+            v_ = fresh.update(np.array([xq]))
+            if not (_same(np.asarray(u_.derivative_coupling_tensor()), np.asarray(v_.derivative_coupling_tensor())) and
+                    _same(np.asarray(u_.hamiltonian()), np.asarray(v_.hamiltonian())) and
+                    _same(np.asarray(u_.force_matrix()), np.asarray(v_.force_matrix()))):
+                problems.append("after the runs the model object evaluates x=%r differently from a brand-new model (the runs left "
+                                "something behind in it: the next run, batch member or scan point starts from it)" % xq)
+                break
     if keep is not None and not all(np.array_equal(u, v) for u, v in zip(keep, spec["_arrays"])):
         problems.append("the runs changed the caller's own initial-condition arrays (position, momentum or density matrix)")
     if keep is not None and len(a) >= 2 and not _same(a[0]["snaps"][0]["density_matrix"], a[1]["snaps"][0]["density_matrix"]):
@@ -401,8 +414,9 @@ def run(ctx):
         if i % 5 in (0, 1, 2) and (i // 5) % 2 == 1:
             # three-state Subotnik models (their tracked eigenvector phases at the end of a transmitted run differ from eigh's
             # native ones at the start), one model object for everything
-            spec.update(model=["modelx", "models"][i % 2], shared_model=True, x0=float(-rng.uniform(8, 9)), box=9.5, k=float(rng.uniform(15, 30)),
-                        samples=2, maxsteps=800)
+            mdl = ["modelx", "models"][i % 2]
+            spec.update(model=mdl, shared_model=True, x0=float(-rng.uniform(5.5, 6.5)), box=7.0, dt=10.0,
+                        k=float(rng.uniform(13, 18)) if mdl == "modelx" else float(rng.uniform(22, 28)), samples=2, maxsteps=3000)
             spec.pop("array_state", None)
             ctx.count("repro_on_one_shared_model_object")
         ok, obs, req, text = oracle_repro(spec)
